@@ -5,8 +5,8 @@ import (
 	"time"
 
 	"storj.io/drpc"
-	"storj.io/drpc/internal/verifrt/hx"
 	vrt "storj.io/drpc/internal/verifrt"
+	"storj.io/drpc/internal/verifrt/hx"
 )
 
 // fakeConn is a pool connection with observable state.
@@ -349,11 +349,11 @@ type vhStreamCtx struct {
 func (c *vhStreamCtx) Done() <-chan struct{} { return c.done }
 func (c *vhStreamCtx) Err() error            { return nil }
 
-func (s *vhStream) Context() context.Context                              { return s.ctx }
-func (s *vhStream) MsgSend(msg drpc.Message, enc drpc.Encoding) error     { return nil }
-func (s *vhStream) MsgRecv(msg drpc.Message, enc drpc.Encoding) error     { return nil }
-func (s *vhStream) CloseSend() error                                      { return nil }
-func (s *vhStream) Close() error                                          { return nil }
+func (s *vhStream) Context() context.Context                          { return s.ctx }
+func (s *vhStream) MsgSend(msg drpc.Message, enc drpc.Encoding) error { return nil }
+func (s *vhStream) MsgRecv(msg drpc.Message, enc drpc.Encoding) error { return nil }
+func (s *vhStream) CloseSend() error                                  { return nil }
+func (s *vhStream) Close() error                                      { return nil }
 
 // vhUseConn is a pool connection that records concurrent use.
 type vhUseConn struct {
